@@ -91,8 +91,9 @@ func t17hRun(dir string, cs t17hCase) [][2]string {
 		e.s.crew.RLock()
 		defer e.s.crew.RUnlock()
 		if mm := e.s.crew.Machines["p"]; mm != nil && mm.State != nil {
-			armed, _ = mm.State.Bs["armed"].(float64)
-			fired, _ = mm.State.Bs["fired"].(float64)
+			// a script's integers are int64 in memory, float64 once reloaded
+			fmt.Sscan(fmt.Sprint(mm.State.Bs["armed"]), &armed)
+			fmt.Sscan(fmt.Sprint(mm.State.Bs["fired"]), &fired)
 		}
 		return
 	}
